@@ -54,7 +54,7 @@ def plan(tier, seed):
     n = 16
     q = tier == 'quick'
     # the watchdog only ever produces "inconclusive" (e.g. an expansion that does not terminate)
-    return [{'shard': i, 'of': n, 'timeout': 300 if q else 3000, 'budget_s': 50 if q else 1000} for i in range(n)]
+    return [{'shard': i, 'of': n, 'timeout': 900 if q else 6000, 'budget_s': 50 if q else 1000} for i in range(n)]
 
 RE_PAIR = re.compile(r':s(\d+)_(\d+):(.*?):e\1_\2:', re.S)
 
